@@ -93,7 +93,8 @@ def h_partition_at(P):
 
 
 def jobs(tier):
-    return [(h_partition_at, (P,), 900) for P in range(0, 5 if tier == 'quick' else 7)]
+    # the PartitionedArray constructor rejects an empty partition list: P >= 1 is the class invariant
+    return [(h_partition_at, (P,), 900) for P in range(1, 5 if tier == 'quick' else 7)]
 
 
 def main(report, tier):
